@@ -17,7 +17,7 @@ from .. import engine, sched, refcsv
 
 PROP = 'C16'
 LEVEL = 'exploration'
-RULE = ('Histories: a pool of 52 scenarios (sharing their table objects) (every query kind of C01-C05, LIKE with many patterns, aggregates, UNNEST, DISTINCT [COUNT], joins, UPDATE, parse errors, runtime '
+RULE = ('Histories: a pool of 58 scenarios (sharing their table objects) (every query kind of C01-C05, LIKE with many patterns, aggregates, UNNEST, DISTINCT [COUNT], joins, UPDATE, parse errors, runtime '
         'errors at record k, IO errors, query_csv, pandas); every ordered pair (quick) and every ordered triple (thorough) run in one interpreter, plus Hypothesis '
         'rule-based state machines over sequences of <= 6 (quick) / <= 12 (thorough) scenarios; invariant after every step: the result (output, header, warnings, error) '
         'equals the result of the same scenario run alone in a FRESH interpreter (one sub-process per scenario). Consecutive rbql-js queries: every ordered pair and a sample of triples (thorough: all) of a 29-scenario JS pool in one node process, each step compared with the scenario run in a fresh node process. Interleavings: two queries of different kinds run in two '
@@ -52,7 +52,9 @@ POOL = [
     S('left-join-ragged', 'select a1, b2, b3 left join b on a1 == b1', B=T3), S('ragged-input', 'select NF, * order by NF', A=T3), S('join-ragged-inner', 'select a1, b.* join b on a1 == b1', B=T3),
     S('join-agg', 'select a1, count(*), ARRAY_AGG(b2) join b on a1 == b1 group by a1', B=T2), S('strict-left-fails', 'select a1, b2 strict left join b on a1 == b1', B=T2),
     S('update', "update a3 = a1 + a2, a1 = 'U' where a1 != 'b'"), S('update-nu', 'update set a2 = NU'), S('update-join', "update a3 = b2 join b on a2 == b1", B=[['1', 'one'], ['3', 'three']]),
-    S('header', 'select a.k, a["tags"] as t, NR', a_names=NAMES), S('missing-dict-key', 'select a1, a["tags"]', a_names=['k', 'n', 'other']), S('missing-dict-key-b', 'select a1, b["w"] join b on a1 == b1', B=T2, a_names=NAMES, b_names=['k', 'zz']),
+    S('header', 'select a.k, a["tags"] as t, NR', a_names=NAMES), S('header-permuted', 'select a.k, a["tags"] as t, NR', a_names=['tags', 'k', 'n']), S('header-permuted-2', 'select a.k, a["tags"] as t, NR', a_names=['n', 'tags', 'k']),
+    S('update-named', "update a.n = 'N', a[\"k\"] = a.tags", a_names=NAMES), S('update-named-permuted', "update a.n = 'N', a[\"k\"] = a.tags", a_names=['tags', 'n', 'k']),
+    S('where-named', "select NR where a.k == 'a' order by a.n", a_names=NAMES), S('where-named-permuted', "select NR where a.k == 'a' order by a.n", a_names=['n', 'k', 'tags']), S('missing-dict-key', 'select a1, a["tags"]', a_names=['k', 'n', 'other']), S('missing-dict-key-b', 'select a1, b["w"] join b on a1 == b1', B=T2, a_names=NAMES, b_names=['k', 'zz']),
     S('header-dict-b', 'select a["k"], b["w"] join b on a["k"] == b["k"]', B=T2, a_names=NAMES, b_names=['k', 'w']), S('header-star', 'select *, a.n as num order by a.k', a_names=NAMES), S('header-join', 'select a.k, b.w join b on a.k == b.k', B=T2, a_names=NAMES, b_names=['k', 'w']),
     S('parse-error-1', 'select a1 where a1 = 1'), S('parse-error-2', 'select'), S('parse-error-3', 'select a1 join b on a1 == zz', B=T2), S('syntax-error', 'select a1 +'),
     S('agg-misuse', 'select MAX(int(a2)) + 1'), S('two-unnest', 'select UNNEST([1]), UNNEST([2])'), S('runtime-error-1', 'select a1, 1 / (1 - NR)'), S('runtime-error-3', 'select a1, 1 / (3 - NR)'),
@@ -160,7 +162,7 @@ def shard_histories(shard, nshards, tier, seed, scratch):
                     check_history([i, j], fresh, scratch, stats)
         # every ordered triple (thorough) / a deterministic sample of them (quick)
         cnt = 0
-        step = 1 if tier == 'thorough' else 23
+        step = 1 if tier == 'thorough' else 67
         for t in itertools.product(range(n), repeat=3):
             cnt += 1
             if cnt % step == 0 and (cnt // step) % nshards == shard:
